@@ -453,6 +453,12 @@ waitLoop:
 			return vfrun.Failf("ws.refused-operation-executed", "%s: resolver %s ran although an extension refused the operation", desc, ev.Key)
 		}
 		if ev.Kind == "R" {
+			if id := strings.TrimPrefix(strings.TrimPrefix(ev.Key, refusedMark), "o"); started[id].Kind == "" {
+				// a resolver of an operation this session never started: the tail of an earlier
+				// session of this process (the universal resolver logs into the current session)
+				vfrun.Label("ignored:resolver-event-of-an-earlier-session")
+				continue
+			}
 			if !initSent || !initAcceptable || ((c.InitFunc == "accept" || c.InitFunc == "detached") && (initSeq < 0 || ev.Seq < initSeq)) {
 				return vfrun.Failf("ws.executed-before-init-accepted", "%s: resolver %s ran although the handshake was not accepted (initSeq %d, event seq %d)", desc, ev.Key, initSeq, ev.Seq)
 			}
